@@ -1,5 +1,5 @@
 """C01 - instruction-sequence patterns match exactly the listings that contain them."""
-from jv import drive, rulegen as RG
+from jv import drive, real, rulegen as RG
 
 LEVEL = "exploration"
 RULE = ("S-syn listings (3-48 instructions, near-miss vocabularies) x rules that are plain lists of items with 0-3 "
@@ -7,10 +7,12 @@ RULE = ("S-syn listings (3-48 instructions, near-miss vocabularies) x rules that
         "then one-step mutants of rule or listing; every rule runs under all 4 full-match flag settings through "
         "MasterOfPuppets (all-matches, full text) and is compared with the R-dsl interpreter on found / leftmost "
         "start / hit windows. Non-trivial = R-dsl finds the rule, or the case is one mutation away from a found case; "
-        "distinct = distinct (rule text, instruction list).")
+        "distinct = distinct (rule text, instruction list). Plus an exhaustive relation grid, identical at every seed: mnemonic / operand-1 / operand-2 "
+        "names in every relation (equal, prefix, suffix, infix, extension, unrelated, empty, omitted) to the instructions of a fixed near-miss listing x 4 "
+        "flag settings, expected addresses computed by the plain definition.")
 FLOOR = {"quick": 400, "thorough": 5000}
 ANCHOR_HINTS = ["mnemonic_and_operand", "node_branch_root", "global_definitions", "consumer", "yaml2regex"]
-REQUIRED_EVENTS = ["hits_located"]
+REQUIRED_EVENTS = ["hits_located", "relation_grid_cells"]
 
 
 def feat(rng):
@@ -97,7 +99,67 @@ def listing_vs_stream(d, prep):
                          f"the listing contains {item} at {want[:6]} but all-matches reports {str(r[1])[:120]} ({prep.why})")
 
 
+GRID_LISTING = [("nop", []), ("addl", ["$0x10", "%r10d"]), ("addq", ["$0x100", "%r10"]), ("add", ["$0x1", "%r1"]), ("addl", ["$0x10"]), ("ret", []),
+                ("faddl", ["0x10(%r10)"]), ("addl", ["%r10d", "$0x10"]), ("subl", ["$0x10", "%r10d"]), ("addl", ["$0x10", "%r10d", "%r11d"]), ("retq", [])]
+GRID_MN = ["addl", "add", "ddl", "dd", "addlq", "sub", "a", "ret", "retq", "nop"]
+GRID_O1 = [None, "0x10", "x1", "0x1", "0x100", "0x2", "%r10d", "0", ""]
+GRID_O2 = [None, "%r10d", "%r10", "r10", "%r10dx", "%r11d", "0x10", ""]
+
+
+def relation_grid(ctx, ws):
+    """Exhaustive grid, identical at every seed: every combination of a mnemonic name, a first and a second operand name taken from
+    {equal, prefix, suffix, infix, proper extension, unrelated, empty, omitted} relative to the instructions of one fixed listing with
+    near-miss neighbours, under all four full-match settings. The expected address list is computed by the plain definition
+    ('occurs in' / 'equals', operand k against operand k) over the instruction list."""
+    from jv import listing as L, refline
+    insts, addr = [], 0x401000
+    for m, ops in GRID_LISTING:
+        insts.append(L.SInst(addr, m, list(ops), None, None, 4))
+        addr += 4
+    fields = [si.fields() for si in insts]
+    lp = ws.write("relgrid.s", L.render(insts, ctx.rng, labels=False))
+    cells = [(mn, o1, o2, fm, fo) for mn in GRID_MN for o1 in GRID_O1 for o2 in GRID_O2 for fm in (False, True) for fo in (False, True)
+             if not (o1 is None and o2 is not None)]
+    for i, (mn, o1, o2, fm, fo) in enumerate(cells):
+        if i % ctx.nshards != ctx.shard:
+            continue
+        names = [x for x in (o1, o2) if x is not None]
+        item = {mn: names} if names else mn
+        rule = real.dump_rule({"config": {"mnemonics-full-match": fm, "operands-full-match": fo}, "pattern": [item]})
+        want = []
+        for a, m, ops in fields:
+            ok = (m == mn) if fm else (mn in m)
+            for k, nm in enumerate(names):
+                ok = ok and k < len(ops) and ((ops[k] == nm) if fo else (nm in ops[k]))
+            if ok:
+                want.append(a)
+        r = real.match(ws.write("relgrid.yaml", rule), lp, ret="list", search="all", only_addr=True)
+        ctx.ran()
+        ctx.event("relation_grid_cells")
+        ctx.case(("relgrid", mn, o1, o2, fm, fo), True, stratum="relation grid", outcome="found" if (r[0] == "ok" and r[1]) else "exc" if r[0] != "ok" else "not found")
+        if r[0] != "ok" or list(r[1]) != want:
+            ctx.disagreement({"relgrid": True, "rule": rule, "want": want},
+                             f"relation grid: item {item} with mnemonics-full-match={fm}, operands-full-match={fo}: expected {want}, got {str(r[1:2])[:160]}")
+
+
+def replay_relgrid(ctx, case):
+    from jv import listing as L
+    ws = real.Workspace()
+    insts, addr = [], 0x401000
+    for m, ops in GRID_LISTING:
+        insts.append(L.SInst(addr, m, list(ops), None, None, 4))
+        addr += 4
+    import random
+    lp = ws.write("relgrid.s", L.render(insts, random.Random(0), labels=False))
+    r = real.match(ws.write("relgrid.yaml", case["rule"]), lp, ret="list", search="all", only_addr=True)
+    ctx.ran()
+    if r[0] != "ok" or list(r[1]) != case["want"]:
+        ctx.disagreement(case, f"relation grid cell: expected {case['want']}, got {str(r[1:2])[:160]}")
+
+
 def run_shard(ctx):
+    from jv import real as _real
+    relation_grid(ctx, _real.Workspace())
     d = drive.Driver(ctx, feat, flags="all4", styles=("mixed", "runs", "dups", "regs", "multisec"), classify=classify)
     d.on_parser_disagreement = listing_vs_stream
     d.loop(2000, 250000)
@@ -105,4 +167,6 @@ def run_shard(ctx):
 
 
 def replay(ctx, case):
+    if case.get("relgrid"):
+        return replay_relgrid(ctx, case)
     drive.replay_dsl(ctx, case, classify=classify)
